@@ -94,11 +94,50 @@ def enumerate_defs(modname: str, tree: ast.Module) -> List[Def]:
 
 
 def load_inventory() -> Optional[Set[str]]:
+    """quals of the functions and `module:NAME` of the module-level names of the reference tree"""
     try:
         with open(INVENTORY) as fh:
-            return set(json.load(fh)["functions"])
+            d = json.load(fh)
+            return set(d["functions"]) | set(d.get("globals", []))
     except (OSError, ValueError, KeyError):
         return None
+
+
+def module_globals(modname: str, tree: ast.Module) -> List[str]:
+    out = []
+    for st in tree.body:
+        tg = []
+        if isinstance(st, ast.Assign):
+            tg = st.targets
+        elif isinstance(st, (ast.AnnAssign, ast.AugAssign)):
+            tg = [st.target]
+        for t in tg:
+            for n in ast.walk(t):
+                if isinstance(n, ast.Name):
+                    out.append(f"{modname}:{n.id}")
+    return out
+
+
+def _literal_like(e) -> bool:
+    """a value that reads the same wherever it is written: constants, dotted names (errno.EEXIST, os.sep), containers of those,
+    frozenset(...) / tuple(...) of such containers, os.path.join of them"""
+    if isinstance(e, ast.Constant):
+        return True
+    if isinstance(e, ast.Name):
+        return True
+    if isinstance(e, ast.Attribute):
+        return _literal_like(e.value)
+    if isinstance(e, (ast.Tuple, ast.List, ast.Set)):
+        return all(_literal_like(x) for x in e.elts)
+    if isinstance(e, ast.Dict):
+        return all(k is not None and _literal_like(k) and _literal_like(v) for k, v in zip(e.keys, e.values))
+    if isinstance(e, ast.Call) and not e.keywords:
+        f = ast.unparse(e.func)
+        if f in ("frozenset", "tuple", "os.path.join", "os.sep.join", "re.compile"):
+            return all(_literal_like(x) for x in e.args)
+    if isinstance(e, ast.UnaryOp) and isinstance(e.op, ast.USub):
+        return _literal_like(e.operand)
+    return False
 
 
 # ---------------------------------------------------------------------------------------------
@@ -174,7 +213,7 @@ def _simple_arg(e) -> bool:
         return True
     if isinstance(e, ast.Attribute):
         return _simple_arg(e.value)
-    if isinstance(e, ast.Subscript) and isinstance(e.slice, ast.Constant):
+    if isinstance(e, ast.Subscript) and isinstance(e.slice, (ast.Constant, ast.Name)):
         return _simple_arg(e.value)
     return False
 
@@ -209,6 +248,31 @@ def _all_names(node) -> Set[str]:
         elif isinstance(n, (ast.FunctionDef, ast.AsyncFunctionDef, ast.ClassDef)):
             out.add(n.name)
     return out
+
+
+class _YieldToAppend(ast.NodeTransformer):
+    """statement-level `yield e` -> acc.append(e), `yield from it` -> acc.extend(it)"""
+
+    def __init__(self, acc):
+        self.acc = acc
+
+    def visit_FunctionDef(self, node):
+        return node
+    visit_AsyncFunctionDef = visit_FunctionDef
+
+    def visit_Lambda(self, node):
+        return node
+
+    def visit_Expr(self, node):
+        v = node.value
+        if isinstance(v, ast.Yield):
+            arg = v.value if v.value is not None else ast.copy_location(ast.Constant(value=None), v)
+            call = ast.Call(func=ast.Attribute(value=ast.Name(id=self.acc, ctx=ast.Load()), attr="append", ctx=ast.Load()), args=[arg], keywords=[])
+            return ast.copy_location(ast.Expr(value=ast.copy_location(call, v)), node)
+        if isinstance(v, ast.YieldFrom):
+            call = ast.Call(func=ast.Attribute(value=ast.Name(id=self.acc, ctx=ast.Load()), attr="extend", ctx=ast.Load()), args=[v.value], keywords=[])
+            return ast.copy_location(ast.Expr(value=ast.copy_location(call, v)), node)
+        return node
 
 
 class _Rename(ast.NodeTransformer):
@@ -449,8 +513,9 @@ class ModuleInliner:
 
     # -- return conversion --------------------------------------------------------
     def _conv(self, stmts: List[ast.stmt], assign, in_loop=False) -> Tuple[List[ast.stmt], bool]:
-        """Rewrite `return e` into assign(e) (+ break inside a loop); the remaining statements move into the branch
-        that falls through.  -> (statements, every path ended in a return/raise of the helper)"""
+        """Rewrite `return e` into assign(e) (+ break inside a loop). Statements that follow a statement containing a return
+        are converted *together with* the branch that falls through into them (if/else, try/except/else), so that a converted
+        return never runs into code it used to skip.  -> (statements, every path ends in a return/raise of the helper)"""
         out: List[ast.stmt] = []
         for i, s in enumerate(stmts):
             if isinstance(s, ast.Return):
@@ -465,62 +530,87 @@ class ModuleInliner:
                 out.append(s)
                 if in_loop and isinstance(s, (ast.Break, ast.Continue)):
                     return out, False
+                if _terminates([s]):
+                    return out, True  # every path through s raises: what follows is dead
                 continue
             rest = stmts[i + 1:]
+            small = len(rest) == 1 and isinstance(rest[0], ast.Return) and (rest[0].value is None or _simple_arg(rest[0].value))
             if isinstance(s, ast.If):
-                b, bt = self._conv(s.body, assign, in_loop)
-                o, ot = self._conv(s.orelse, assign, in_loop) if s.orelse else ([], False)
-                if not rest:
+                bt, ot = _terminates(s.body), bool(s.orelse) and _terminates(s.orelse)
+                if not rest or (bt and ot):
+                    b, bt2 = self._conv(s.body, assign, in_loop)
+                    o, ot2 = self._conv(s.orelse, assign, in_loop) if s.orelse else ([], False)
                     s.body, s.orelse = b or [ast.copy_location(ast.Pass(), s)], o
                     out.append(s)
-                    return out, bt and ot
-                if bt and ot:
+                    return out, bt2 and ot2
+                if bt and not ot:
+                    b, _ = self._conv(s.body, assign, in_loop)
+                    o, t2 = self._conv(list(s.orelse) + rest, assign, in_loop)
                     s.body, s.orelse = b, o
                     out.append(s)
-                    return out, True
-                if bt and not ot:
-                    r, rt = self._conv(rest, assign, in_loop)
-                    s.body, s.orelse = b, o + r
-                    out.append(s)
-                    return out, rt
+                    return out, t2
                 if ot and not bt:
-                    r, rt = self._conv(rest, assign, in_loop)
-                    s.body, s.orelse = b + r, o
+                    o, _ = self._conv(s.orelse, assign, in_loop)
+                    b, t2 = self._conv(list(s.body) + rest, assign, in_loop)
+                    s.body, s.orelse = b, o
                     out.append(s)
-                    return out, rt
+                    return out, t2
+                if small:
+                    b, t1 = self._conv(list(s.body) + [copy.deepcopy(rest[0])], assign, in_loop)
+                    o, t2 = self._conv(list(s.orelse) + [copy.deepcopy(rest[0])], assign, in_loop)
+                    s.body, s.orelse = b, o
+                    out.append(s)
+                    return out, t1 and t2
                 raise Bail("return in a branch that also falls through")
             if isinstance(s, (ast.With, ast.AsyncWith)):
-                b, bt = self._conv(s.body, assign, in_loop)
+                bt = _terminates(s.body)
+                if rest and not bt:
+                    raise Bail("return inside with, statements follow")
+                b, bt2 = self._conv(s.body, assign, in_loop)
                 s.body = b
                 out.append(s)
-                if not rest:
-                    return out, bt
-                if bt:
-                    return out, True
-                raise Bail("return inside with, statements follow")
+                return out, bt2
             if isinstance(s, ast.Try):
                 if s.finalbody and _contains(s.finalbody, ast.Return):
                     raise Bail("return in finally")
-                b, bt = self._conv(s.body, assign, in_loop)
-                e, et = self._conv(s.orelse, assign, in_loop) if s.orelse else ([], False)
-                hs = [self._conv(h.body, assign, in_loop) for h in s.handlers]
-                body_term = bt or et
-                falls = ([] if body_term else ["body"]) + [i2 for i2, (_, ht) in enumerate(hs) if not ht]
-                s.body, s.orelse = b, e
-                for h, (hb, _) in zip(s.handlers, hs):
-                    h.body = hb
+                body_t = _terminates(s.body) or (bool(s.orelse) and _terminates(s.orelse))
+                h_t = [_terminates(h.body) for h in s.handlers]
+                falls = ([] if body_t else ["body"]) + [k for k, t in enumerate(h_t) if not t]
                 if not rest or not falls:
+                    b, bt2 = self._conv(s.body, assign, in_loop)
+                    e, et2 = self._conv(s.orelse, assign, in_loop) if s.orelse else ([], False)
+                    hs = [self._conv(h.body, assign, in_loop) for h in s.handlers]
+                    s.body, s.orelse = b, e
+                    for h, (hb, _) in zip(s.handlers, hs):
+                        h.body = hb
                     out.append(s)
-                    return out, not falls
-                if len(falls) == 1 and not s.finalbody:
-                    r, rt = self._conv(rest, assign, in_loop)
-                    if falls[0] == "body":
-                        s.orelse = s.orelse + r
+                    return out, (bt2 or et2) and all(t for _, t in hs)
+                if s.finalbody:
+                    raise Bail("return inside try/finally, statements follow")
+                if "body" in falls and any(_contains_return(x) for x in s.body):
+                    raise Bail("try body returns on some paths and falls through on others")
+                if len(falls) > 1 and not small:
+                    raise Bail("return inside try with several fall-through branches")
+                term_all = True
+                new_body, _ = self._conv(s.body, assign, in_loop)
+                if "body" in falls:
+                    new_else, t2 = self._conv(list(s.orelse) + [copy.deepcopy(x) for x in rest], assign, in_loop)
+                    term_all = term_all and t2
+                else:
+                    new_else, _ = self._conv(s.orelse, assign, in_loop) if s.orelse else ([], False)
+                new_h = []
+                for k, h in enumerate(s.handlers):
+                    if k in falls:
+                        hb, t2 = self._conv(list(h.body) + [copy.deepcopy(x) for x in rest], assign, in_loop)
+                        term_all = term_all and t2
                     else:
-                        s.handlers[falls[0]].body = s.handlers[falls[0]].body + r
-                    out.append(s)
-                    return out, rt
-                raise Bail("return inside try with several fall-through branches")
+                        hb, _ = self._conv(h.body, assign, in_loop)
+                    new_h.append(hb)
+                s.body, s.orelse = new_body, new_else
+                for h, hb in zip(s.handlers, new_h):
+                    h.body = hb
+                out.append(s)
+                return out, term_all
             if isinstance(s, (ast.For, ast.While, ast.AsyncFor)):
                 if in_loop:
                     raise Bail("return in nested loop")
@@ -549,6 +639,12 @@ class ModuleInliner:
             call, form = st.value, "annassign"
         elif isinstance(st, ast.Return) and isinstance(st.value, ast.Call):
             call, form = st.value, "return"
+        # x = list(gen_helper(...)): the generator is drained on the spot -> x = []; body with `yield e` -> x.append(e)
+        if form == "assign" and isinstance(st.targets[0], ast.Name) and isinstance(call.func, ast.Name) and call.func.id == "list" and len(call.args) == 1 \
+                and not call.keywords and isinstance(call.args[0], ast.Call):
+            res0 = self._resolve(call.args[0], caller)
+            if res0 is not None and res0[0] is not caller and self._eligible(res0[0]) and _is_generator(res0[0].node):
+                call, form = call.args[0], "drain"
         if call is None:
             return None
         res = self._resolve(call, caller)
@@ -558,13 +654,26 @@ class ModuleInliner:
         if d is caller or not self._eligible(d):
             return None
         gen = _is_generator(d.node)
-        if gen != (form == "yieldfrom"):
+        if gen != (form in ("yieldfrom", "drain")):
             return None
         try:
             pre, body = self._prepare(d, call, caller, recv, skip)
             if form == "assign" and isinstance(st.targets[0], ast.Name):
                 body = self._adopt_target(body, st.targets[0].id, pre)
-            if form == "return":
+            if form == "drain":
+                acc = st.targets[0].id
+                if any(isinstance(n, ast.Name) and n.id == acc for s2 in body + pre for n in ast.walk(s2)):
+                    raise Bail("accumulator name used by the generator")
+                body = [_YieldToAppend(acc).visit(s2) for s2 in body]
+                if any(isinstance(n, (ast.Yield, ast.YieldFrom)) for s2 in body for n in _walk_no_nested(s2)):
+                    raise Bail("yield used as an expression")
+                init = ast.copy_location(ast.Assign(targets=[ast.Name(id=acc, ctx=ast.Store())], value=ast.List(elts=[], ctx=ast.Load())), st)
+
+                def assign(r):
+                    return [ast.copy_location(ast.Pass(), r)]
+                conv, _ = self._conv(body, assign)
+                new = pre + [init] + conv
+            elif form == "return":
                 if not _terminates(body):
                     body.append(ast.copy_location(ast.Return(value=ast.copy_location(ast.Constant(value=None), st)), st))
                 new = pre + body
@@ -685,9 +794,34 @@ class ModuleInliner:
         fn.args.defaults = fn.args.defaults
 
     # -- hoisting of tests ----------------------------------------------------------------
+    def _is_stmt_helper_call(self, t, caller) -> bool:
+        if isinstance(t, ast.UnaryOp) and isinstance(t.op, ast.Not):
+            t = t.operand
+        if not isinstance(t, ast.Call):
+            return False
+        res = self._resolve(t, caller)
+        return res is not None and res[0] is not caller and self._eligible(res[0]) and self._expr_helper(res[0]) is None and not _is_generator(res[0].node)
+
     def _hoist_tests(self, stmts: List[ast.stmt], caller: Def) -> List[ast.stmt]:
         out = []
         for st in stmts:
+            # `if A and helper(): X` (no else)  ->  `if A: (if helper(): X)`, so that the call becomes the whole test of an if
+            if isinstance(st, ast.If) and not st.orelse and isinstance(st.test, ast.BoolOp) and isinstance(st.test.op, ast.And):
+                vals = st.test.values
+                idx = [i for i, v in enumerate(vals) if i > 0 and self._is_stmt_helper_call(v, caller)]
+                if idx:
+                    i = idx[0]
+                    left = vals[0] if i == 1 else ast.copy_location(ast.BoolOp(op=ast.And(), values=vals[:i]), st.test)
+                    right = vals[i] if i == len(vals) - 1 else ast.copy_location(ast.BoolOp(op=ast.And(), values=vals[i:]), st.test)
+                    inner = ast.copy_location(ast.If(test=right, body=st.body, orelse=[]), st)
+                    st = ast.copy_location(ast.If(test=left, body=[inner], orelse=[]), st)
+                    out.append(st)
+                    continue
+            if isinstance(st, ast.If) and isinstance(st.test, ast.BoolOp) and isinstance(st.test.op, ast.And) and self._is_stmt_helper_call(st.test.values[0], caller) and not st.orelse:
+                vals = st.test.values
+                right = vals[1] if len(vals) == 2 else ast.copy_location(ast.BoolOp(op=ast.And(), values=vals[1:]), st.test)
+                inner = ast.copy_location(ast.If(test=right, body=st.body, orelse=[]), st)
+                st = ast.copy_location(ast.If(test=vals[0], body=[inner], orelse=[]), st)
             if isinstance(st, ast.If):
                 t = st.test
                 neg = False
@@ -707,14 +841,84 @@ class ModuleInliner:
         return out
 
     # -- driver ---------------------------------------------------------------------------
+    # -- threading of hoisted boolean results ------------------------------------------------
+    def _thread(self, stmts: List[ast.stmt], tname: str, on_true: List[ast.stmt], on_false: List[ast.stmt], budget: List[int]) -> bool:
+        """`stmts` end (on every path) in `tname = True/False`; replace each such assignment by a copy of the code the following
+        `if tname:` would run. Returns False (nothing usable) when some path does not end in such an assignment."""
+        if not stmts:
+            return False
+        last = stmts[-1]
+        if isinstance(last, ast.Assign) and len(last.targets) == 1 and isinstance(last.targets[0], ast.Name) and last.targets[0].id == tname:
+            if not (isinstance(last.value, ast.Constant) and isinstance(last.value.value, bool)):
+                return False
+            repl = [copy.deepcopy(x) for x in (on_true if last.value.value else on_false)]
+            budget[0] -= 1
+            if budget[0] < 0:
+                return False
+            stmts[-1:] = repl or [ast.copy_location(ast.Pass(), last)]
+            return True
+        if isinstance(last, ast.If):
+            if not last.orelse:
+                return False
+            return self._thread(last.body, tname, on_true, on_false, budget) and self._thread(last.orelse, tname, on_true, on_false, budget)
+        if isinstance(last, (ast.With, ast.AsyncWith)):
+            return False  # moving code into a with block changes what the context manager covers
+        if isinstance(last, ast.Try):
+            if last.finalbody:
+                return False
+            ok = True
+            if last.orelse:
+                ok = ok and self._thread(last.orelse, tname, on_true, on_false, budget)
+            elif not _terminates(last.body):
+                return False  # the code would move into the protected region
+            for h in last.handlers:
+                if _terminates(h.body):
+                    continue
+                ok = ok and self._thread(h.body, tname, on_true, on_false, budget)
+            return ok
+        return False
+
+    def _try_thread(self, new: List[ast.stmt], tname: str, ifst: ast.If) -> Optional[List[ast.stmt]]:
+        t = ifst.test
+        neg = isinstance(t, ast.UnaryOp) and isinstance(t.op, ast.Not)
+        if neg:
+            t = t.operand
+        if not (isinstance(t, ast.Name) and t.id == tname):
+            return None
+        on_true, on_false = (ifst.orelse, ifst.body) if neg else (ifst.body, ifst.orelse)
+        size = sum(1 for x in on_true + on_false for _ in ast.walk(x) if isinstance(_, ast.stmt))
+        if size > 12:
+            return None
+        # every binding of the temporary must be one of the tail assignments that are replaced
+        n_bind = sum(1 for s2 in new for n in ast.walk(s2) if isinstance(n, ast.Name) and n.id == tname and isinstance(n.ctx, ast.Store))
+        trial = [copy.deepcopy(s2) for s2 in new]
+        budget = [4]
+        if not self._thread(trial, tname, list(on_true), list(on_false), budget):
+            return None
+        if 4 - budget[0] != n_bind:
+            return None
+        if any(isinstance(n, ast.Name) and n.id == tname for s2 in trial for n in ast.walk(s2)):
+            return None
+        return trial
+
     def _process_block(self, stmts: List[ast.stmt], caller: Def) -> List[ast.stmt]:
         stmts = self._hoist_tests(stmts, caller)
         out: List[ast.stmt] = []
-        for st in stmts:
+        skip_next = False
+        for idx, st in enumerate(stmts):
+            if skip_next:
+                skip_next = False
+                continue
             if isinstance(st, (ast.FunctionDef, ast.AsyncFunctionDef, ast.ClassDef)):
                 out.append(st)
                 continue
             new = self._expand_stmt(st, caller)
+            if new is not None and isinstance(st, ast.Assign) and isinstance(st.targets[0], ast.Name) and st.targets[0].id.startswith("_inl_t") \
+                    and idx + 1 < len(stmts) and isinstance(stmts[idx + 1], ast.If):
+                thr = self._try_thread(new, st.targets[0].id, stmts[idx + 1])
+                if thr is not None:
+                    new = thr
+                    skip_next = True
             if new is not None:
                 # the expanded code may itself call new helpers
                 out.extend(self._process_block(new, caller) if self._depth_ok() else new)
@@ -737,7 +941,56 @@ class ModuleInliner:
         self._depth = getattr(self, "_depth", 0) + 1
         return self._depth < 200
 
+    def _inline_new_constants(self):
+        """A module-level name that does not exist on the reference tree and is bound once to a literal-like value
+        (`_DESTINATION_EXISTS = (errno.EEXIST, errno.ENOTEMPTY)`, `_CLONED = 1`) is written out where it is used."""
+        cand: Dict[str, ast.expr] = {}
+        counts: Dict[str, int] = {}
+        for n in ast.walk(self.tree):
+            if isinstance(n, ast.Name) and isinstance(n.ctx, (ast.Store, ast.Del)):
+                counts[n.id] = counts.get(n.id, 0) + 1
+            elif isinstance(n, (ast.FunctionDef, ast.AsyncFunctionDef, ast.ClassDef)):
+                counts[n.name] = counts.get(n.name, 0) + 1
+            elif isinstance(n, ast.arg):
+                counts[n.arg] = counts.get(n.arg, 0) + 1
+            elif isinstance(n, (ast.Global, ast.Nonlocal)):
+                for nm in n.names:
+                    counts[nm] = counts.get(nm, 0) + 2
+        for st in self.tree.body:
+            if isinstance(st, ast.Assign) and len(st.targets) == 1 and isinstance(st.targets[0], ast.Name):
+                nm, val = st.targets[0].id, st.value
+            elif isinstance(st, ast.AnnAssign) and isinstance(st.target, ast.Name) and st.value is not None:
+                nm, val = st.target.id, st.value
+            else:
+                continue
+            if f"{self.modname}:{nm}" in self.known or counts.get(nm, 0) != 1 or not _literal_like(val):
+                continue
+            # the value must not refer to other new constants that are themselves rebound, nor to itself
+            if any(isinstance(x, ast.Name) and x.id == nm for x in ast.walk(val)):
+                continue
+            cand[nm] = val
+        if not cand:
+            return
+        # mutation through the name (X.append, X[k] = v, del X[k]) disqualifies
+        for n in ast.walk(self.tree):
+            if isinstance(n, (ast.Subscript, ast.Attribute)) and isinstance(getattr(n, "ctx", None), (ast.Store, ast.Del)) and isinstance(n.value, ast.Name) and n.value.id in cand:
+                cand.pop(n.value.id, None)
+            if isinstance(n, ast.Call) and isinstance(n.func, ast.Attribute) and isinstance(n.func.value, ast.Name) and n.func.value.id in cand \
+                    and n.func.attr in ("append", "extend", "add", "update", "pop", "remove", "clear", "insert", "setdefault", "discard", "sort", "reverse"):
+                cand.pop(n.func.value.id, None)
+        # constants defined from other new constants: expand inside-out
+        for _ in range(3):
+            for nm in list(cand):
+                cand[nm] = _Rename({}, {k: v for k, v in cand.items() if k != nm}).visit(copy.deepcopy(cand[nm]))
+        sub = _Rename({}, cand)
+        for d in self.defs:
+            if d.parent is None:
+                d.node.body = [sub.visit(s) for s in d.node.body]
+        for nm in cand:
+            self.log.append(f"constant {self.modname}:{nm} written out")
+
     def run(self) -> ast.Module:
+        self._inline_new_constants()
         if not self.new:
             return self.tree
         # callers: every function of the module (new helpers first, so that helper-in-helper chains resolve inside-out)
@@ -749,6 +1002,10 @@ class ModuleInliner:
                 caller.node.body = self._process_block(caller.node.body, caller)
             if sum(self.expanded.values()) == before:
                 break
+        # tidy: `else: pass` left behind by the conversion
+        for n in ast.walk(self.tree):
+            if isinstance(n, (ast.If, ast.Try, ast.For, ast.While)) and getattr(n, "orelse", None) and all(isinstance(x, ast.Pass) for x in n.orelse):
+                n.orelse = []
         # drop helpers that are no longer referenced
         for d in self.new:
             if not self.expanded.get(id(d)):
